@@ -215,3 +215,48 @@ package webrtc
 //@ atcall (*sdp.MediaDescription).WithPropertyAttribute assert callarg1 == "msid:" + ufstr("streamIdOf", track) + " " + ufstr("trackIdOf", track)
 //@ loop 1 step ghost(msrcCalls) == loophead(ghost(msrcCalls)) + 1 + ite(!isPlanB && encoding.RTX.SSRC != 0, 1, 0) + ite(!isPlanB && encoding.FEC.SSRC != 0, 1, 0)
 //@ loop 1 step ghost(ssrcGroups) == loophead(ghost(ssrcGroups)) + ite(encoding.RTX.SSRC != 0, 1, 0) + ite(encoding.FEC.SSRC != 0, 1, 0)
+
+// An answer is built from the remote description's sections only: CreateAnswer never asks for
+// the sections of unmatched local transceivers (that is what offers do).
+//@ func (*PeerConnection).CreateAnswer #mirror
+//@ props C07
+//@ nosafety
+//@ requires pcValid(pc)
+//@ atcall (*PeerConnection).generateMatchedSDP assert !callarg3 && callarg5 == pc.api.settingEngine.ignoreRidPauseForRecv
+
+// C12 upstream of the offer: after a successful ReplaceTrack every encoding of the sender
+// carries the new track (nil included), so the next offer announces exactly that track.
+// Stated for an arbitrary fixed encoding index (uninterpreted constant, ground obligations).
+// Assumed: whether Send has been called does not change during the call (r.mu is held, Send
+// takes it too) — hasSent is a function of the sender here.
+//@ func (*RTPSender).hasSent
+//@ trusted
+//@ props C12
+//@ ensures result == ufbool("hasSent", r)
+//@ modifies nothing
+// (no reentrancy, section 9: a track's Kind / Unbind do not write this package's memory)
+//@ func (TrackLocal).Kind
+//@ trusted
+//@ props C12
+//@ modifies nothing
+//@ func (TrackLocal).Unbind
+//@ trusted
+//@ props C12
+//@ modifies nothing
+//@ func (TrackLocal).Bind
+//@ trusted
+//@ props C12
+//@ modifies nothing
+// (assumed: the media engine lookup only reads)
+//@ func (*MediaEngine).getRTPParametersByKind
+//@ trusted
+//@ props C12
+//@ modifies nothing
+//@ func (*RTPSender).ReplaceTrack
+//@ props C12
+//@ nosafety
+//@ requires r != nil
+//@ requires forall k int :: 0 <= k && k < len(r.trackEncodings) ==> r.trackEncodings[k] != nil
+//@ ensures err == nil && 0 <= ufint("encWitness") && ufint("encWitness") < len(r.trackEncodings) ==> r.trackEncodings[ufint("encWitness")].track == track
+//@ loop 0 invariant r.trackEncodings == old(r.trackEncodings) && rangeindex < len(r.trackEncodings)
+//@ loop 0 invariant (!ufbool("hasSent", r) || track == nil) && 0 <= ufint("encWitness") && ufint("encWitness") <= rangeindex ==> r.trackEncodings[ufint("encWitness")].track == track
